@@ -122,6 +122,10 @@ pub fn violation(property: &str, signature: String, message: String) {
     })
 }
 
+pub fn shutdown_was_called() -> bool {
+    RUN.with(|r| r.try_borrow().map(|r| r.shutdown_called).unwrap_or(false))
+}
+
 pub fn has_violation() -> bool {
     RUN.with(|r| !r.borrow().violations.is_empty())
 }
